@@ -24,6 +24,8 @@ COUPLING_PIECES = [
     "CC{[$][$]CC([$])c1ccccc1[$]}|gauss(%d, 20)|", "OC{[$][$]CCO[$], [$]CC(C)O[$][$]}|uniform(%d, 200)|", "N{[$][$]C(=O)CCCCCN[$][$]}|poisson(%d)|",
     "F{[$][$]CC(C)(C(=O)OC)[$][$]}|gauss(%d, 5)|", "C{[>][<]CC[>][<]}|gauss(%d, 10)|", "Cl{[>][<]CC([>])C#N[<]}|uniform(%d, 160)|",
     "[H]{[>][<][Si](C)(C)O[>][<]}|poisson(%d)|", "CC[$]", "OCC[>]",
+    # parts whose open descriptor fits none of the others of their family (another id): offered pairs are refused
+    "CC[$2]", "O{[$2][$2]CC[$2][$2]}|gauss(%d, 10)|",
 ]
 # cores with two or three open descriptors: arms are attached one after another
 COUPLING_CORES = ["[$]C([$])[$]", "[$]c1cc([$])cc([$])c1", "[$]CC[$]", "[<]CC(C[<])C[<]", "[<]N(C)[<]", "[$][Si](C)(C)[$]"]
@@ -38,7 +40,7 @@ def spec_from_seed(run_seed, tier):
     if rnd.random() < 0.03:
         core = rnd.choice(COUPLING_CORES + [None, None])
         sym = "$" if core is None or "$" in core else ">"  # arms that fit the core's open descriptors ('<' core takes '>' arms)
-        fit = [p for p in COUPLING_PIECES if ("[$]}" in p or p.endswith("[$]")) == (sym == "$")]
+        fit = [p for p in COUPLING_PIECES if ("$" in p) == (sym == "$")]
         pieces = [{"text": (p % rnd.choice([60, 90, 140])) if "%d" in p else p, "seed": rnd.randrange(1000)} for p in
                   (rnd.choice(fit) for _ in range(rnd.choice([2, 2, 3])))]
         return {"kind": "coupling", "prop": "C05", "core": core, "pieces": pieces, "reverse": rnd.random() < 0.3}
@@ -99,11 +101,30 @@ def _execute_coupling(spec):
                         break
                 if pair:
                     break
-            if pair is None:
-                break
-            if spec.get("reverse") and len(parts) == 1:
+            if pair is not None and spec.get("reverse") and len(parts) == 1:
                 base, other, pair = other, base, (pair[1], pair[0])
+            # a refused attachment first (fault: the caller offers an incompatible pair): it must raise and leave both parts as
+            # they were -- the accepted attachment that follows is audited against the snapshots taken BEFORE the refusal
             sa, sb = snapshot(base), snapshot(other)
+            bad = [(i, j) for i, a in enumerate(base.bond_descriptors) for j, b in enumerate(other.bond_descriptors) if not a.is_compatible(b)]
+            if bad and spec.get("refuse_first", True):
+                i, j = bad[len(bad) // 2]
+                try:
+                    base.attach_other(i, other, j)
+                    viol("incompatible_pair_attached", f"attach_other joined the incompatible descriptors {base.bond_descriptors} / {other.bond_descriptors}")
+                    break
+                except SimAbort:
+                    raise
+                except RuntimeError:
+                    stats["fault:refused_attach"] = stats.get("fault:refused_attach", 0) + 1
+                except Exception as exc:
+                    viol("coupling_raised", f"attach_other of an incompatible pair raised {exc!r} (a RuntimeError refusal was expected)")
+                    break
+                if snapshot(base) != sa or snapshot(other) != sb or abs(float(base.weight) - sa["mass"]) > 1e-6:
+                    viol("attached_fragment_modified", f"a refused attach_other changed the parts: {snapshot(base)} / weight {float(base.weight)} vs {sa}")
+                    break
+            if pair is None:
+                continue
             at_a = base.bond_descriptors[pair[0]].atom_bonding_to
             at_b = other.bond_descriptors[pair[1]].atom_bonding_to
             try:
